@@ -185,6 +185,10 @@ func finish(o checkOpts, seed int, start time.Time, loadTime time.Duration, repo
 		for _, id := range r.Reached {
 			reached = append(reached, r.Harness+"/"+id)
 		}
+		if len(r.Reached) == 0 && len(r.NotReached) == 0 && !r.Truncated && len(r.Violations) == 0 {
+			// a harness whose Reach statements were never even executed proves nothing
+			notReached = append(notReached, r.Harness+"/<no reach statement executed on any path>")
+		}
 		assumptions = append(assumptions, r.Assumptions...)
 		if r.Truncated {
 			truncated = true
@@ -381,9 +385,14 @@ func finish(o checkOpts, seed int, start time.Time, loadTime time.Duration, repo
 		},
 		"assumptions": append(append([]string{}, meta.Assumptions...), assumptions...),
 	}
-	os.MkdirAll(filepath.Join(verifDir, "evidence"), 0o755)
+	evDir := filepath.Join(verifDir, "evidence")
+	if os.Getenv("GOSMT_REPO") != "" {
+		// experiment against a scratch worktree: never touch the evidence of /repo itself
+		evDir = filepath.Join(os.TempDir(), "gosmt_experiment_evidence")
+	}
+	os.MkdirAll(evDir, 0o755)
 	eb, _ := json.MarshalIndent(ev, "", " ")
-	os.WriteFile(filepath.Join(verifDir, "evidence", o.prop+".json"), eb, 0o644)
+	os.WriteFile(filepath.Join(evDir, o.prop+".json"), eb, 0o644)
 
 	for _, l := range knownLines {
 		fmt.Println(l)
